@@ -207,6 +207,12 @@ class Nameplate:
     # is easier than adding a new pair of states to Mailbox.
     S4B.upon(close, enter=S4B, outputs=[])
 
+    # a code can still be entered after we started (or finished) closing on
+    # our own (welcome error, server error): there is nothing left to claim
+    S4A.upon(_set_nameplate, enter=S4A, outputs=[])
+    S4B.upon(_set_nameplate, enter=S4B, outputs=[])
+    S5.upon(_set_nameplate, enter=S5, outputs=[])
+
     S5A.upon(connected, enter=S5B, outputs=[])
     S5B.upon(lost, enter=S5A, outputs=[])
     S5.upon(release, enter=S5, outputs=[])  # mailbox is lazy
